@@ -119,9 +119,14 @@ def prims():
         def foo(z):
             return z * z
 
-        k = {"none": 1.0, "factor": 1.0 + 1e-3, "sign": -1.0}[defect]
-        defvjp(foo, lambda ans, z: lambda g: g * 2.0 * z * k)  # holomorphic f: vjp(g) = conj(J_R^T conj g) = g f'(z)
-        defjvp(foo, lambda g, ans, z: g * 2.0 * z * k)
+        k = {"none": 1.0, "factor": 1.0 + 1e-3, "sign": -1.0, "conj": 1.0}[defect]
+        if defect == "conj":
+            # wrong only along imaginary directions: conj(f') instead of f' (the classic complex-convention slip)
+            defvjp(foo, lambda ans, z: lambda g: g * 2.0 * anp.conj(z))
+            defjvp(foo, lambda g, ans, z: g * 2.0 * anp.conj(z))
+        else:
+            defvjp(foo, lambda ans, z: lambda g: g * 2.0 * z * k)  # holomorphic f: vjp(g) = conj(J_R^T conj g) = g f'(z)
+            defjvp(foo, lambda g, ans, z: g * 2.0 * z * k)
         return foo
 
     def container_quad(defect):
@@ -139,7 +144,7 @@ def prims():
         ("array quadratic (2,)", array_quad, R(2), ["factor", "sign", "entry"], False),
         ("matrix-vector product", matvec, R(2), ["transpose"], False),
         ("reduction to a scalar", reduce_sum, R(2), ["dropped_reduction"], False),
-        ("complex quadratic", complex_quad, A_c(), ["factor", "sign"], False),
+        ("complex quadratic", complex_quad, A_c(), ["factor", "sign", "conj"], False),
         ("tuple (array, scalar) argument", container_quad, (R(2), SC), ["factor", "sign"], False),
     ]
 
